@@ -145,6 +145,14 @@ def objOfTok (s : State) : Scan.Tok → State × Obj
     let (v, r) := s.vm.alloc (.bytes bytes.toArray)
     ({ s with vm := v }, .str r 0 bytes.length)
 
+/-- a procedure called by name takes a level of the execution stack unless the call is counted already -/
+def enterLevel (counted : Bool) (s : State) : State :=
+  if counted then s else { s with execDepth := s.execDepth + 1, hiDepth := max s.hiDepth (s.execDepth + 1) }
+
+/-- … and gives it back when `executeOne` returns -/
+def leaveLevel (counted : Bool) (p : State × Res) : State × Res :=
+  if counted then p else ({ p.1 with execDepth := p.1.execDepth - 1 }, p.2)
+
 mutual
 
 /-- `executeOne(obj, execProc)` -/
@@ -175,12 +183,12 @@ def execBody : Nat → (maxOps : Nat) → State → Obj → Bool → State × Re
           okS { s with procStart := ps, vm := { v with stack := .proc r 0 (b - a) :: s.vm.stack.drop (b - a) } }
     else if obj == .op "{" then okS { s with procStart := s.vm.stack.length :: s.procStart }
     else if !s.procStart.isEmpty then okS (pushS s obj)
-    else execTail fuel m s obj execProc
+    else execTail fuel m s obj execProc execProc
 
-/-- the `recurseTail` loop -/
-def execTail : Nat → (maxOps : Nat) → State → Obj → Bool → State × Res
-  | 0, _, s, _, _ => (s, .fuel)
-  | fuel + 1, m, s, obj, execProc =>
+/-- the `recurseTail` loop; `counted` = this call of `executeOne` occupies a level of the execution stack -/
+def execTail : Nat → (maxOps : Nat) → State → Obj → Bool → Bool → State × Res
+  | 0, _, s, _, _, _ => (s, .fuel)
+  | fuel + 1, m, s, obj, execProc, counted =>
     let s := { s with numOps := s.numOps + 1 }
     if m > 0 ∧ s.numOps > m then (s, .err .limit)
     else
@@ -188,7 +196,7 @@ def execTail : Nat → (maxOps : Nat) → State → Obj → Bool → State × Re
       | .op n =>
         match lookupName s.vm n with
         | none => psErrS s "undefined"
-        | some v => execTail fuel m s v true
+        | some v => execTail fuel m s v true counted
       | .builtin id =>
         let (s1, r) := callBuiltin fuel m s id
         match r with
@@ -206,14 +214,17 @@ def execTail : Nat → (maxOps : Nat) → State → Obj → Bool → State × Re
       | .proc ref off len =>
         if execProc then
           if len == 0 then okS s
+          else if !counted && s.execDepth ≥ execDepthLimit then psErrS s "execstackoverflow"
           else
-            let (s1, r) := runBody fuel m s ref off 0 (len - 1)
-            match r with
-            | .ok =>
-              match (s1.vm.getObjs ref)[off + (len - 1)]? with
-              | some last => execTail fuel m s1 last false
-              | none => (s1, .err (.panic "procedure view outside its store"))
-            | _ => (s1, r)
+            -- a procedure called by name occupies a level, too (until `executeOne` returns)
+            leaveLevel counted (
+              let (s1, r) := runBody fuel m (enterLevel counted s) ref off 0 (len - 1)
+              match r with
+              | .ok =>
+                match (s1.vm.getObjs ref)[off + (len - 1)]? with
+                | some last => execTail fuel m s1 last false true
+                | none => (s1, .err (.panic "procedure view outside its store"))
+              | _ => (s1, r))
         else okS (pushS s obj)
       | _ => okS (pushS s obj)
 
